@@ -470,6 +470,10 @@ func (c *HTTPClient) discover() error {
 			c.topology.Update(primary, secondaries...)
 			break
 		}
+
+		// this node cannot tell the topology (it may answer, e.g. with a 4xx):
+		// do not ask it again, otherwise the loop never ends
+		e.MarkAsDead()
 	}
 
 	return nil
